@@ -21,9 +21,12 @@ from . import common
 from .common import cN, cnat, cbool, clist, copt, cstr
 
 THEOREMS = [
-    "process_realises_inline", "decode_heap_is_decode_tree", "multiref_equiv", "outlined_inlines_back",
+    "process_realises_inline", "decode_heap_is_decode_tree", "input_ok_heap_ok", "multiref_equiv",
+    "multiref_equiv_processed", "outlined_inlines_back", "outline_constructive",
     "outline_invariant", "fuel_suffices", "dangling_href_local", "dangling_decodes_to_href_object",
-    "empty_array_is_empty_list", "array_items_typed", "array_is_list", "unmarked_before_response_refuted",
+    "empty_array_is_empty_list", "array_items_typed", "array_is_list",
+    "moved_attributes_keep_their_prefixes", "moved_children_keep_their_prefixes",
+    "move_without_declarations_refuted", "rebound_on_referrer_path_refuted", "unmarked_before_response_refuted",
 ]
 
 PRE = "From SV Require Import Lib.Base C18.Model."
@@ -853,6 +856,21 @@ def probe_prefix_rebinding(ck, client, wsdl):
                          "decodes to %s, the same reply in line to %s" % (s_ctl, s_in),
                          dict(pl, reply_outlined=control.decode("utf-8"), decoded_outlined=s_ctl))
     ck.extra["prefix_rebinding_probe"] = {"same_result": r_out == r_in, "decoded_outlined": s_out, "decoded_inline": s_in}
+    # outside the guard of moved_attributes_keep_their_prefixes (Props.v, witness px_heap2): the independent
+    # element uses a binding it inherits from the Envelope and the response element rebinds that prefix.
+    # Recorded, not flagged (debatable; see rebound_on_referrer_path_refuted).
+    head2 = head.replace('<e:Body>', '').replace('xmlns:a="urn:c18:fixed:a">', 'xmlns:a="urn:c18:fixed:a" xmlns:q="%s"><e:Body>' % XSD)
+    out2 = (head2 + '<a:fResponse xmlns:q="urn:other"><return href="#r"/></a:fResponse>'
+            '<multiRef id="r" enc:root="0" xsi:type="a:Person"><name>bob</name><nums href="#n"/></multiRef>'
+            '<multiRef id="n" enc:root="0" enc:arrayType="q:int[1]"><item>5</item></multiRef>' + tail).encode("utf-8")
+    inl2 = (head2 + '<a:fResponse><return xsi:type="a:Person"><name>bob</name>'
+            '<nums enc:arrayType="q:int[1]"><item>5</item></nums></return></a:fResponse>' + tail).encode("utf-8")
+    r_out2, s_out2 = run_impl(client, out2, In)
+    r_in2, s_in2 = run_impl(client, inl2, In)
+    ck.seen(("prefix-rebinding-probe-path", out2))
+    ck.count("prefix-rebinding-probes")
+    ck.extra["prefix_rebound_on_referrer_path"] = {"same_result": r_out2 == r_in2, "decoded_outlined": s_out2,
+                                                   "decoded_inline": s_in2, "reply_outlined": out2.decode("utf-8")}
     if r_out != r_in:
         ck.failing_input(KEY_REBOUND, "two independent elements bind one prefix to different namespaces: the moved content "
                          "is resolved through the referrer and decodes to %s, in line to %s" % (s_out, s_in), pl)
@@ -876,9 +894,12 @@ def run(ck):
         "children, RPC.replycontent, Binding.get_reply for one returned part, Encoded.setaty/applyaty (mutating "
         "shared children)/promote/postprocess, Typed.start (declared child type, xsi:type wins, TypeNotFound), "
         "Core.append_attributes (AttrList.skip)/append_children/append_text/postprocess",
-        "covered by correspondence only: prefix handling (Element.promotePrefixes, resolvePrefix through the parent "
-        "pointer of moved nodes and shared Attribute objects, the xsi prefix applyaty declares) - the model works on "
-        "the namespace infoset expat reports; soaparray.Attribute/wsdl:arrayType on the schema side; builtin "
+        "prefix handling: Prefix.v models Element.resolvePrefix over parent pointers and replace_references at that "
+        "level (children re-parented, the referenced node's declarations copied to the referrer since db8b9ec) with "
+        "theorems and two witnesses; the decoding model itself works on the namespace infoset expat reports, and "
+        "Element.promotePrefixes, shared Attribute objects and the xsi prefix applyaty declares are covered by "
+        "correspondence only (prefixes declared on the Envelope or on the independent elements, three hand-written "
+        "rebinding probes); soaparray.Attribute/wsdl:arrayType on the schema side; builtin "
         "translation (only canonical lexical forms are generated; C06's subject)",
         "outside the generated family (reported, not flagged): array items with different element names (promote "
         "keeps the first name's list), nil array items (dropped from the list), a reference to an element that is "
@@ -957,7 +978,7 @@ def run(ck):
         ck.sample({"reply_outlined": m["doc_out"].decode("utf-8")[:1500], "decoded": m["r_out"][:400]})
 
     preds = ["mr_agrees", "mr_spec_ok", "mr_same", "mr_shows", "gen_ok", "mr_instance",
-             "fun c => negb (mr_guard c)"]
+             "fun c => negb (mr_guard c)", "mr_heap_ok"]
     res = ck.run_cases("mr", PRE, "mcase", [c for c, _ in cases], preds, shard=40)
     bad_gen = res["gen_ok"]
     if bad_gen:
@@ -965,7 +986,7 @@ def run(ck):
         raise RuntimeError("harness bug: the in-line document is not the out-lined one with references replaced\n%s\n%s"
                            % (m["doc_in"].decode("utf-8"), m["doc_out"].decode("utf-8")))
     disagree = set(res["mr_agrees"])
-    inst_bad = set(res["mr_instance"])
+    inst_bad = set(res["mr_instance"]) | set(res["mr_heap_ok"])
     in_guard = set(res[preds[6]])
     ck.extra["cases_inside_theorem_guard"] = len(in_guard)
     ck.extra["theorem_instance_failures"] = len(inst_bad)
